@@ -627,6 +627,13 @@ func c18Check(c c18Case, ev *evid.Collector) *evid.Violation {
 		}
 		if len(o.Backup) > 0 {
 			lab("opt:backup")
+			f := e.BackupFmt
+			if len(e.Backup) == 0 {
+				f = c.Def.BackupFmt
+			}
+			if f >= 4 {
+				lab("opt:backup-expansion-has-outer-blanks")
+			}
 		}
 		if o.Referrers && len(o.RefFilters) > 0 {
 			lab("opt:referrer-filters")
